@@ -473,4 +473,32 @@ def callGraphOk (sites : List CallSite) : Bool :=
   [("Func.Call", "handle"), ("handle", "exec"), ("handle", "execBatch"),
    ("readRequest", "serveRequest")].all (fun s => sites.contains s)
 
+/-! ### how the node gets its key: `config.SetApiKey` (config/config.go:137), called by `node.NewNode` (node.go:170) -/
+
+/-- ASCII white space as cut by `strings.TrimSpace` (the harness generates no other kind) -/
+def isSpace (b : Nat) : Bool := b == 9 || b == 10 || b == 11 || b == 12 || b == 13 || b == 32
+
+def trimSpace (s : Str) : Str := ((s.dropWhile isSpace).reverse.dropWhile isSpace).reverse
+
+/-- `flag`: the configured `RPC.APIKey` (command line / config file), `file`: content of `<datadir>/api.key`
+(`none`: unreadable), `rnd`: the freshly generated random key.  Result: the key the node runs with and
+whether `api.key` is (re)written with it. -/
+def setApiKey (flag : Str) (file : Option Str) (rnd : Str) : Str × Bool :=
+  if flag ≠ [] then (flag, true)                                            -- config.go:139, :152
+  else
+    let k := trimSpace (file.getD [])                                       -- config.go:141-142
+    if k = [] then (rnd, true)                                              -- config.go:143-145
+    else (k, false)                                                         -- config.go:147
+
+/-- (G) key flow: `newserver` facts `(enclosing function, argument kind, number of call sites of that function)`
+for every non-test call of `rpc.NewServer`, and the `keypass` classes of the arguments on the way from the
+config field to it.  A server is created either with a value that is traced back to `….RPC.APIKey`, or
+(the key-less WebSocket/IPC endpoint constructors) in a function that nobody calls. -/
+def keyFlowOk (ns : List (String × String × Nat)) (kp : List String) : Bool :=
+  !ns.isEmpty &&
+  ns.all (fun f => f.2.1 == "param" || f.2.1 == "cfgkey" || (f.2.1 == "empty" && f.2.2 == 0)) &&
+  ns.any (fun f => f.2.1 == "param" || f.2.1 == "cfgkey") &&
+  kp.all (fun k => k == "param" || k == "cfgkey") &&
+  (kp.contains "cfgkey" || ns.any (fun f => f.2.1 == "cfgkey"))
+
 end IdenaModel.RpcGate
